@@ -48,6 +48,9 @@ pub fn run(ctx: &mut Ctx) {
             let len = if miri { rng.range(4, 7) } else { rng.range(40, 200) } as usize;
             let mut ops = Vec::with_capacity(len);
             let mut cur_ext = *rng.pick(&ALL_EXT);
+            let mut prev: Option<RCase> = None;
+            let mut stats_near = 0u32;
+            let _ = &mut stats_near;
             // phases: growing sizes then shrinking, so that buffers are reused without growth
             for k in 0..len {
                 let r = rng.below(20);
@@ -59,8 +62,45 @@ pub fn run(ctx: &mut Ctx) {
                     ops.push(Op::Switch);
                 } else {
                     let mut c = random_case(&mut rng, &o);
+                    // a quarter of the calls repeat the previous call with one thing changed (crop position, filter,
+                    // algorithm, alpha flag, contents): what a cache keyed on too little would get wrong
+                    if let (Some(p), true) = (&prev, rng.chance(1, 4)) {
+                        c = p.clone();
+                        match rng.below(6) {
+                            0 => {
+                                let [l, t, w, h] = c.crop_box();
+                                let nl = if l + w + 1.0 <= c.sw as f64 && rng.chance(1, 2) { l + 1.0 } else if l >= 1.0 { l - 1.0 } else { l + (c.sw as f64 - l - w) * rng.unit() };
+                                c.crop = Crop::Box([nl, t, w, h]);
+                            }
+                            1 => {
+                                let [l, t, w, h] = c.crop_box();
+                                let nt = if t + h + 1.0 <= c.sh as f64 && rng.chance(1, 2) { t + 1.0 } else if t >= 1.0 { t - 1.0 } else { t + (c.sh as f64 - t - h) * rng.unit() };
+                                c.crop = Crop::Box([l, nt, w, h]);
+                            }
+                            2 => {
+                                let f = *rng.pick(&BUILTIN);
+                                c.alg = match c.alg {
+                                    Alg::Conv(_) => Alg::Conv(f),
+                                    Alg::Interp(_) => Alg::Interp(f),
+                                    Alg::Super(_, m) => Alg::Super(f, m),
+                                    Alg::Nearest => Alg::Conv(f),
+                                };
+                            }
+                            3 => c.use_alpha = !c.use_alpha,
+                            4 => c.content = gen_content(&mut rng, pt_kind(c.pt)),
+                            _ => {
+                                c.alg = match c.alg {
+                                    Alg::Conv(f) => Alg::Interp(f),
+                                    Alg::Interp(f) => Alg::Super(f, 2),
+                                    Alg::Super(f, _) => Alg::Conv(f),
+                                    Alg::Nearest => Alg::Conv(Filt::Box),
+                                };
+                            }
+                        }
+                        stats_near += 1;
+                    }
                     let phase = (k * 4 / len) % 2;
-                    if phase == 1 && !miri {
+                    if phase == 1 && !miri && prev.as_ref().map_or(true, |p| p.sw != c.sw || p.pt != c.pt) {
                         // smaller images after bigger ones
                         c.sw = (c.sw / 3).max(1);
                         c.sh = (c.sh / 3).max(1);
@@ -86,6 +126,7 @@ pub fn run(ctx: &mut Ctx) {
                         c.crop = Crop::Box([0.0, 0.0, c.sw as f64 + 1.0, c.sh as f64]);
                         ops.push(Op::Failing(c, ext));
                     } else {
+                        prev = Some(c.clone());
                         ops.push(Op::Resize(c, ext));
                     }
                 }
